@@ -30,6 +30,12 @@ type Inst struct {
 	LatencyPct int   `json:"latency_pct"` // origin latency per request in percent of T (refreshes take time)
 	FailK     int    `json:"fail_k"`     // the first FailK fetches after publishing the new list fail
 	FailKind  string `json:"fail_kind"`  // http500 | garbage | badsig | truncated
+	// Decoy: the instance also knows a second CRL (crl_url of another CA) that starts failing for good right after
+	// Provision: none | garbage | http500 | badsig
+	Decoy string `json:"decoy"`
+	// Restart (configured sources on disk): after the run the instance is cleaned up, a newer list is published and the
+	// instance is provisioned again on the same work_dir
+	Restart bool `json:"restart"`
 }
 
 // Case is 1..4 instances running together.
@@ -52,6 +58,8 @@ func genCase(t *rapid.T) Case {
 			LatencyPct: rapid.SampledFrom([]int{0, 0, 40, 80}).Draw(t, l+"lat"),
 			FailK:      rapid.IntRange(0, 2).Draw(t, l+"k"),
 			FailKind:   rapid.SampledFrom([]string{"http500", "garbage", "badsig", "truncated"}).Draw(t, l+"fk"),
+			Decoy:      rapid.SampledFrom([]string{"none", "none", "garbage", "http500", "badsig"}).Draw(t, l+"decoy"),
+			Restart:    rapid.IntRange(0, 2).Draw(t, l+"restart") == 0,
 		})
 	}
 	return c
@@ -74,6 +82,8 @@ type running struct {
 	probeOld  [][]*x509.Certificate
 	probeNew  [][]*x509.Certificate
 	rejectedAt time.Time
+	breakDecoy func()
+	opts       world.CRLOpts
 }
 
 var updStart, updDone atomic.Int64
@@ -176,9 +186,26 @@ func runCase(c Case, x *ev.Ctx) error {
 		os.MkdirAll(wd, 0o755)
 		opts := world.CRLOpts{WorkDir: wd, Disk: in.Disk, Sig: in.Sig, Background: in.Bg, Interval: T, NoSettle: true, Trusted: []*x509.Certificate{r.pki.Root.Cert}}
 		var cdp []string
+		if in.Decoy != "none" {
+			dpki := world.NewSimplePKI(fmt.Sprintf("c15-%d-%d-%d decoy", os.Getpid(), id, i), "p256c", "")
+			dsib := world.NewSimplePKI(fmt.Sprintf("c15-%d-%d-%d decoy", os.Getpid(), id, i), "p256d", "")
+			r.origin.Serve("/decoy.crl", dpki.CRL(1, "0e"))
+			opts.URLs = append(opts.URLs, r.origin.URL("/decoy.crl"))
+			opts.Trusted = append(opts.Trusted, dpki.Root.Cert)
+			r.breakDecoy = func() {
+				switch in.Decoy {
+				case "garbage":
+					r.origin.Serve("/decoy.crl", []byte("gone"))
+				case "http500":
+					r.origin.Status("/decoy.crl", 500, "down")
+				default:
+					r.origin.Serve("/decoy.crl", dsib.CRL(2, "0e"))
+				}
+			}
+		}
 		switch in.Source {
 		case "crl_url":
-			opts.URLs = []string{r.origin.URL("/list.crl")}
+			opts.URLs = append(opts.URLs, r.origin.URL("/list.crl"))
 		case "crl_file":
 			opts.Files = []string{r.file}
 		default:
@@ -189,6 +216,10 @@ func runCase(c Case, x *ev.Ctx) error {
 			return fmt.Errorf("instance %d (%+v): provisioning with an acceptable configured CRL failed: %v", i, in, err)
 		}
 		r.checker = ch
+		r.opts = opts
+		if r.breakDecoy != nil {
+			r.breakDecoy() // from now on every refresh of the second CRL fails
+		}
 		r.probeOld = r.pki.ChainFor(r.pki.Leaf("0a", cdp, nil))
 		r.probeNew = r.pki.ChainFor(r.pki.Leaf("0b", cdp, nil))
 		if in.Source != "cdp" {
@@ -274,6 +305,32 @@ func runCase(c Case, x *ev.Ctx) error {
 		x.Classf("source=%s", r.inst.Source)
 		x.Classf("delay-in-T=%d", int(r.rejectedAt.Sub(tPub)/T))
 	}
+	// restart: configured lists are in force by the time provisioning returns, also when an older list is on disk
+	for i, r := range rs {
+		if !r.inst.Restart || !r.inst.Disk || r.inst.Source == "cdp" {
+			continue
+		}
+		r.checker.Cleanup()
+		r.checker = nil
+		quiesce()
+		v3 := r.pki.CRL(3, "0a", "0b", "0c")
+		os.WriteFile(r.file, v3, 0o600)
+		r.mu.Lock()
+		r.v2 = v3
+		r.mu.Unlock()
+		if r.breakDecoy != nil {
+			r.origin.Serve("/decoy.crl", world.NewSimplePKI(fmt.Sprintf("c15-%d-%d-%d decoy", os.Getpid(), id, i), "p256c", "").CRL(3, "0e"))
+		}
+		ch, err := world.NewChecker(r.opts)
+		if err != nil {
+			return fmt.Errorf("instance %d: re-provisioning on the same work_dir with acceptable configured CRLs failed: %v", i, err)
+		}
+		r.checker = ch
+		if v := world.Ask(ch, r.pki.ChainFor(r.pki.Leaf("0c", nil, nil))); v.Kind != "revoked" {
+			return fmt.Errorf("instance %d (%s on disk): after a restart the serial listed only in the NEWEST configured list answered %v immediately after Provision returned (an older list was on disk)", i, r.inst.Source, v)
+		}
+		x.Class("restart-with-newer-configured-list")
+	}
 	x.Classf("instances=%d", len(rs))
 	x.NonTrivial(fmt.Sprintf("%+v", c))
 	return nil
@@ -283,7 +340,7 @@ var spec = ev.Spec[Case]{
 	ID:  "C15",
 	Gen: genCase,
 	Run: runCase,
-	Rule: "rapid draws 1..4 checker instances running together in one process (distinct work_dirs), update_interval T in 200..400 ms, per instance: source in {crl_urls, crl_files, CDP}, storage, signature mode, fetch mode, start phase (0..90 % of T), origin latency (0..80 % of T, so refreshes of different instances overlap) and a failure prefix: after the new list is published the first k in 0..2 fetches fail (HTTP 500, garbage, truncated, wrong signature) before the acceptable list is served. Oracles: a serial listed in a configured CRL is rejected immediately after Provision returns; after publishing, every instance rejects the newly revoked certificate within (k+1) x 12 T (each successive fetch within 12 T), polled with handshakes every T/8; the assertion is only evaluated if a control ticker of the harness with period T kept firing during the window (a stalled machine yields 'inconclusive', never a violation). Every case is non-trivial; distinct by the full configuration.",
+	Rule: "rapid draws 1..4 checker instances running together in one process (distinct work_dirs), update_interval T in 200..400 ms, per instance: source in {crl_urls, crl_files, CDP}, storage, signature mode, fetch mode, start phase (0..90 % of T), origin latency (0..80 % of T, so refreshes of different instances overlap) and a failure prefix: after the new list is published the first k in 0..2 fetches fail (HTTP 500, garbage, truncated, wrong signature) before the acceptable list is served; optionally a second configured CRL of another CA that fails for good right after Provision (garbage / HTTP 500 / wrong signature), and for configured sources on disk a final restart on the same work_dir after a still newer list was published. Oracles: after that restart the newest list is in force when Provision returns; a serial listed in a configured CRL is rejected immediately after Provision returns; after publishing, every instance rejects the newly revoked certificate within (k+1) x 12 T (each successive fetch within 12 T), polled with handshakes every T/8; the assertion is only evaluated if a control ticker of the harness with period T kept firing during the window (a stalled machine yields 'inconclusive', never a violation). Every case is non-trivial; distinct by the full configuration.",
 	Assumptions: []string{"bounded liveness for intervals of a few hundred milliseconds, not the 30-minute production interval", "12 T per fetch is a generous bound: a refresh that becomes several times slower but stays bounded is not detected"},
 }
 
